@@ -214,7 +214,7 @@ fn run_case(h: &mut Harness, c: &Case) -> Result<(String, Value), String> {
         }
     }
     let detail = json!({"request": resp::show_cmd(&cmd), "position": POSITIONS[c.position], "replies": got.iter().map(resp::show).map(|s| if s.len() > 120 { format!("{}…", &s[..120]) } else { s }).collect::<Vec<_>>(), "later_frames": later.len()});
-    cli.close();
+    cli.discard();
     let _ = h.srv.as_ref().unwrap().steps(2);
     if after.replicas != before.replicas || after.monitors != before.monitors || after.dump != before.dump {
         // do not let a leak contaminate the next case
@@ -239,7 +239,7 @@ fn run_password(h: &mut Harness, name: &str, pw: &[u8]) -> Result<(String, Value
     if !matches!(got.get(1), Some(R::Err(_))) {
         problems.push(format!("GET-answered-{}", got.get(1).map(resp::class).unwrap_or_else(|| "nothing".into())));
     }
-    cli.close();
+    cli.discard();
     let _ = h.srv.as_ref().unwrap().steps(2);
     Ok((if problems.is_empty() { "refused".into() } else { problems.join("+") }, json!({"password_variant": name, "replies": got.iter().map(resp::show).collect::<Vec<_>>()})))
 }
@@ -272,8 +272,8 @@ fn run_positive(h: &mut Harness) -> Result<Vec<String>, String> {
     if r != R::Bulk(b"secret-value".to_vec()) {
         problems.push(format!("GET after a failed re-AUTH -> {}", resp::show(&r)));
     }
-    a.close();
-    b2.close();
+    a.discard();
+    b2.discard();
     Ok(problems)
 }
 
